@@ -167,6 +167,11 @@ class FullStack:
         self.crashed: str | None = None
         self.tls_starts: list = []  # TlsData of every tls_start_client, in order
         self.hooks: list[str] = []
+        # upstream side: server_peer_factory(conn) -> object with give(bytes) / take() -> bytes / closes: bool,
+        # made when the first bytes are written to a server connection; none = servers stay silent
+        self.server_peer_factory: Callable[[Any], Any] | None = None
+        self.server_peers: dict[str, Any] = {}
+        self._server_mark: dict[str, int] = {}
         self.driver = sansio.Driver(self.ctx, top, on_hook=self._on_hook, auto_hooks=True)
         self.driver.start()
 
@@ -201,11 +206,43 @@ class FullStack:
             return b""
         try:
             self.driver.data(self.ctx.client, data)
-            for op in list(self.driver.opens_pending()):
-                self.driver.complete(op)
+            self.settle()
         except Exception as e:  # server.py: "mitmproxy has crashed!" -- the connection is dead from here on
             self.crashed = f"{type(e).__name__}: {e}"
         return bytes(self.driver.sent.get("client", b""))[n0:]
+
+    def settle(self):
+        """Complete pending OpenConnections and move bytes between server connections and their peers."""
+        from mitmproxy.connection import ConnectionState
+
+        d = self.driver
+        for _ in range(60):
+            moved = False
+            for op in list(d.opens_pending()):
+                d.complete(op)
+                moved = True
+            if self.server_peer_factory is not None:
+                for name in [n for n in list(d.sent) if n.startswith("server")]:
+                    out = bytes(d.sent[name])
+                    new = out[self._server_mark.get(name, 0):]
+                    self._server_mark[name] = len(out)
+                    if not new:
+                        continue
+                    moved = True
+                    conn = d.conn(name)
+                    peer = self.server_peers.get(name)
+                    if peer is None:
+                        peer = self.server_peers[name] = self.server_peer_factory(conn)
+                    peer.give(new)
+                    if getattr(peer, "closes", False):
+                        if conn.state is not ConnectionState.CLOSED:
+                            d.peer_close(conn)
+                        continue
+                    back = peer.take()
+                    if back and conn.state & ConnectionState.CAN_READ:
+                        d.data(conn, back)
+            if not moved:
+                break
 
     def connect_request(self, host: str, port: int = 443) -> bytes:
         return f"CONNECT {host}:{port} HTTP/1.1\r\nHost: {host}:{port}\r\n\r\n".encode()
@@ -331,8 +368,8 @@ class Mint:
         if basic_ca is not None:
             b = b.add_extension(x509.BasicConstraints(ca=basic_ca, path_length=None), critical=True)
         sans = list(sans)
-        if sans:
-            b = b.add_extension(x509.SubjectAlternativeName(sans), critical=san_critical)
+        if sans:  # RFC 5280 4.2.1.6: critical exactly when the subject is empty
+            b = b.add_extension(x509.SubjectAlternativeName(sans), critical=san_critical or not subj)
         if eku:
             b = b.add_extension(x509.ExtendedKeyUsage(
                 [ExtendedKeyUsageOID.SERVER_AUTH if eku == "server" else ExtendedKeyUsageOID.CLIENT_AUTH]), critical=False)
